@@ -112,6 +112,16 @@ CHECKS = {
                      'known finding (KF-C16-first-slow-consumer).',
                 technique='TLA+ functional spec FlowSem/Flow enumerated by TLC; all scenarios replayed on the real code; traces '
                           'validated by TLC against the TLA+ monitor ObsC16'),
+    'C13': dict(obs='ObsC13', ref='4/C13',
+                text='PipeSem.tla defines the fluid model in exact rationals (event-driven evaluation of rates '
+                     'min(limit, limit*P/sum limits)); Pipe.tla lets TLC enumerate every scenario (pipe throughput incl. unbounded, '
+                     '<=2 (thorough 3) transfers x volume x limit x start x cancel date) and checks sanity properties of the '
+                     'semantics; every scenario runs on the real Pipe/UnboundedPipe (transfers as tasks, cancellations by the '
+                     'root) and TLC validates the observed start/completion/abort dates against the fluid model (ObsC13).',
+                note='Float dates are snapped by the harness to the rational with denominator <= 5000 within relative 1e-9 '
+                     '(the property\'s "up to floating point rounding"); dates that are not representable are reported.',
+                technique='TLA+ fluid semantics PipeSem evaluated by TLC for every enumerated scenario; all scenarios replayed on '
+                          'the real code; observed dates validated by TLC against the TLA+ monitor ObsC13'),
 }
 
 
